@@ -16,6 +16,7 @@ import (
 	"github.com/docker/docker/api/types"
 	apicontainer "github.com/docker/docker/api/types/container"
 	"github.com/docker/docker/client"
+	"github.com/docker/docker/errdefs"
 )
 
 // What an inventory_change fault turns a container into.
@@ -330,12 +331,17 @@ func (d *Daemon) ContainerList(_ context.Context, opts apicontainer.ListOptions)
 	var out []types.Container
 	for i := range d.world.Containers {
 		c := &d.world.Containers[i]
-		state, status, names := c.State, c.Status, append([]string(nil), c.Names...)
+		state, status, names, image := c.State, c.Status, append([]string(nil), c.Names...), c.Image
 		for _, f := range d.faults {
 			if f.Kind == FaultInventoryChange && f.Container == c.ID && k >= f.K {
-				names = []string{"/" + ChangedName(c.ID)}
-				if f.ErrKind != "rename" {
-					state, status = ChangedState, ChangedStatus
+				if f.ErrKind == "retag" {
+					// the tag moved on: the daemon now reports the image by its ID
+					image = c.ImageID
+				} else {
+					names = []string{"/" + ChangedName(c.ID)}
+					if f.ErrKind != "rename" {
+						state, status = ChangedState, ChangedStatus
+					}
 				}
 				d.FaultsFired[FaultInventoryChange]++
 			}
@@ -353,7 +359,7 @@ func (d *Daemon) ContainerList(_ context.Context, opts apicontainer.ListOptions)
 		out = append(out, types.Container{
 			ID:      c.ID,
 			Names:   names,
-			Image:   c.Image,
+			Image:   image,
 			ImageID: c.ImageID,
 			Command: c.Command,
 			Created: c.Created,
@@ -415,6 +421,14 @@ func (d *Daemon) ContainerLogs(_ context.Context, id string, o apicontainer.Logs
 	for _, f := range d.faults {
 		if f.Kind == FaultOpenError && f.Container == id && (f.Open < 0 || f.Open == openIdx) {
 			d.FaultsFired[FaultOpenError]++
+			switch f.ErrKind {
+			case "not_found":
+				// the container was removed between the listing and this request
+				return fail(errdefs.NotFound(fmt.Errorf("No such container: %s: %w", id, ErrInjected)))
+			case "not_implemented":
+				// its logging driver does not support reading
+				return fail(errdefs.NotImplemented(fmt.Errorf("configured logging driver does not support reading: %w", ErrInjected)))
+			}
 			return fail(fmt.Errorf("open %s: %w", id, ErrInjected))
 		}
 	}
